@@ -98,6 +98,12 @@ def checkInput (nL nR : Nat) (lc rc : Bool) (ls : List Line) : InputInfo := Id.r
   let mut ok := nL ≥ 1 && nR ≥ 1
   let mut sent : List (Bool × Nat × Elem Val) := []
   for l in ls do
+    -- loop side next to a cached side: a batch ends at its FlushAndRestart and a Terminate travels in a
+    -- batch of its own (`End` flushes at FlushAndRestart and at Terminate, src/operator/end.rs:223-228)
+    if (if l.left then rc else lc) then
+      let farLast := (l.elems.dropLast.all (fun e => !e.isFar))
+      let termAlone := !(l.elems.any Elem.isTerm) || l.elems.all Elem.isTerm
+      if !(farLast && termAlone) then ok := false
     for e in l.elems do
       let me := if l.left then sl else sr
       let other := if l.left then sr else sl
@@ -237,28 +243,6 @@ def c09Failures (info : InputInfo) (impl : List (Elem Val)) : List String := Id.
     bad := bad ++ [s!"{rounds.length} iterations closed, {min info.roundsL info.roundsR} expected"]
   return bad
 
-/-- remove from what follows the last `FlushAndRestart` one complete extra presentation of the cached
-    side (exactly the content of round 1, End marker last); `none` if the tail is not of that shape -/
-def stripExtraReplay (cl : Bool) (impl : List (Elem Val)) : Option (List (Elem Val)) :=
-  let (rounds, tail) := splitRounds impl
-  match rounds with
-  | [] => none
-  | r1 :: _ =>
-    let isC := fun e => isSideData cl e || isEndMarker cl e
-    let extra := tail.filter isC
-    let want := r1.filter isC
-    if extra.isEmpty || extra != want then none
-    else some ((rounds.map (· ++ [Elem.far])).flatten ++ tail.filter (fun e => !isC e))
-
-/-- which defect makes the model replay the cache after the loop ended: `F6` if a cached batch is
-    replayed after a loop-side `Terminate` was received, `F6b` if the replay happened before
-    (the `first_message` flag was lost by a receive timeout). -/
-def replayCause (cl : Bool) (sels : List (Sel Val)) : String :=
-  let afterTerm := sels.dropWhile fun s => match s with
-    | .recv l b => !(l != cl && b.2.any Elem.isTerm)
-    | _ => true
-  if afterTerm.any (fun s => match s with | .replay _ _ => true | _ => false) then "F6" else "F6b"
-
 def handle (c : Case) : Verdict :=
   match c.header with
   | [_, _, nL, nR, mode] =>
@@ -281,20 +265,7 @@ def handle (c : Case) : Verdict :=
           let f11 := if lc || rc then c11Failures lc info impl else []
           let f05 := c05Failures info impl
           let f09 := if lc || rc then [] else c09Failures info impl
-          -- known-finding classification: ALL C11/C05 failures disappear when one extra presentation of
-          -- the cached side between the last FlushAndRestart and Terminate is removed
-          let known : Option String :=
-            if !(lc || rc) || (f11.isEmpty && f05.isEmpty) || c.implOut != m.out then none else
-            match stripExtraReplay lc impl with
-            | none => none
-            | some impl' =>
-              if (c11Failures lc info impl').isEmpty && (c05Failures info impl').isEmpty then
-                match replayCause lc m.sels with
-                | "F6" => if (if lc then nR else nL) ≥ 2 then some "known:F6-cache-replayed-after-loop-end " else none
-                | _ => some "known:F6b-cache-replayed-after-receive-timeout "
-              else none
-          let pre := known.getD ""
-          let all := f11.map (fun s => s!"[C11] {pre}{s}") ++ f05.map (fun s => s!"[C05] {pre}{s}")
+          let all := f11.map (fun s => s!"[C11] {s}") ++ f05.map (fun s => s!"[C05] {s}")
             ++ f09.map (fun s => s!"[C09] {s}")
           if all.isEmpty then none else some (" ;; ".intercalate all)
       let rounds := if lc then info.roundsR else if rc then info.roundsL else min info.roundsL info.roundsR
@@ -310,7 +281,7 @@ def handle (c : Case) : Verdict :=
               ++ (if m.consumed.length < ls.length then ["leftover"] else [])
               ++ (if m.ambiguous then ["ambiguous"] else [])
               ++ (match oracle with
-                  | some s => if (s.splitOn "known:F6b").length > 1 then ["F6b"] else if (s.splitOn "known:F6-").length > 1 then ["F6"] else ["oraclefail"]
+                  | some _ => ["oraclefail"]
                   | none => []) }
     | _, _ => { out := [], oracle := some "bad header", nontrivial := false }
   | _ => { out := [], oracle := some "bad header", nontrivial := false }
